@@ -337,6 +337,11 @@ class Harness(object):
         msg = str(e)
         if exp == 'must_succeed':
             fk = 'FOREIGN KEY' in msg or name == 'UnresolvableCyclicDependency'
+            if name in ('OptimisticCheckError', 'UnrepeatableReadError') and 'C16' in self.props:
+                # no other connection exists in this harness: a row can only have "changed outside the transaction"
+                # because an earlier statement of the same flush (e.g. a DELETE cascading in the database) hit it
+                raise Fail('C16', '%s failed with %s: %s although no other session exists: the flush order made the '
+                                  'database change a row before its own pending write' % (what, name, msg[:300]))
             if fk and 'C16' in self.props:
                 raise Fail('C16', '%s failed with %s: %s although all pending references can be ordered' % (what, name, msg[:300]))
             self.bump('unexpected_write_failure:' + name)
@@ -403,6 +408,14 @@ class Harness(object):
             return None
         depth = self.program.get('snap', 0) if 'C13' in self.props else 0
         before = self.snapshot(depth) if 'C13' in self.props else None
+        pending_before = self.pending_collection_state() if 'C13' in self.primary else None
+        internals_ok_before = False
+        if 'C13' in self.primary:
+            try:
+                self.internal_diagnostics(desc)
+                internals_ok_before = True
+            except Fail:
+                pass  # already inconsistent before this call: not attributable to its failure
         nobj_before = len(self.pobj)
         try:
             result = pony_call()
@@ -453,6 +466,15 @@ class Harness(object):
                 raise Fail('C11', '%s, which the reference store accepts, raised an internal %s inside Pony (%s): the session '
                                   'key index does not match the objects the session holds'
                            % (desc, type(raised).__name__, str(raised)[:120]))
+        if 'C13' in self.primary:
+            if internals_ok_before:
+                self.internal_diagnostics(desc)
+            pending_after = self.pending_collection_state()
+            if pending_before is not None and pending_after is not None:
+                for key in pending_before:
+                    if key in pending_after and pending_after[key] != pending_before[key]:
+                        raise Fail('C13', '%s failed but the pending additions/removals of h%d.%s changed from %r to %r '
+                                          '(a later commit would write them)' % (desc, key[0], key[1], pending_before[key], pending_after[key]))
         if 'C13' in self.props:
             # drop objects registered by the failed call itself (a failed creation leaves no object)
             after = self.snapshot(depth)
@@ -488,6 +510,21 @@ class Harness(object):
                 ghost = any(('primary key %s' % (', '.join(map(str, pk)) if isinstance(pk, tuple) else pk)) in str(raised)
                             for (ent_, pk) in self.ghost_pks)
                 if not ghost:
+                    # an object with an automatic key that was flushed meanwhile may legitimately hold the requested key
+                    # (the reference store does not know database-assigned ids)
+                    import re as _re
+                    m = _re.match(r'Cannot create (\w+): instance with primary key (.+) already exists', str(raised))
+                    if m:
+                        for h_, o_ in list(self.pobj.items()):
+                            mo = self.model.cur.objs.get(h_)
+                            if mo is None or not mo.get('alive', True) or type(o_).__name__ != m.group(1):
+                                continue
+                            try:
+                                if str(o_.get_pk()) == m.group(2):
+                                    ghost = True
+                            except Exception:
+                                pass
+                if not ghost:
                     # the session index claims a key that no live object of the session holds
                     if failed_before and 'C13' in self.props:
                         raise Fail('C13', '%s raised %s although no live object holds that key; an earlier failed call in '
@@ -501,6 +538,73 @@ class Harness(object):
             if 'STRICT' in self.props:
                 raise Fail('STRICT', '%s raised %s: %s but the model accepts it' % (desc, type(raised).__name__, str(raised)[:200]))
         return None
+
+    def internal_diagnostics(self, desc):
+        """Secondary diagnostic on Pony's private bookkeeping after a failed call (C13: 'object status and the set of
+        pending writes'; C11: identity map).  Every object whose status says it has a pending write must sit in the save
+        queue at its recorded position, and every live object with a primary key must be the one the pk index returns.
+        If the private attributes do not exist (refactoring) the diagnostic is skipped, never raised."""
+        try:
+            cache = self.db._get_cache()
+            queue = cache.objects_to_save
+            objects = list(cache.objects)
+            indexes = cache.indexes
+        except Exception:
+            return
+        for o in objects:
+            try:
+                status = o._status_
+                pos = o._save_pos_
+            except Exception:
+                return
+            if status in ('created', 'modified', 'marked_to_delete'):
+                if pos is None or pos >= len(queue) or queue[pos] is not o:
+                    raise Fail('C13', '%s failed and left %s with status %r but without its slot in the pending-write queue '
+                                      '(its write would be silently dropped)' % (desc, self.safe_ident(o), status))
+            if status in ('created', 'modified', 'loaded', 'inserted', 'updated'):
+                try:
+                    pk = o._pkval_
+                    idx = indexes[type(o)._pk_attrs_]
+                except Exception:
+                    continue
+                if pk is not None and idx.get(pk) is not o:
+                    raise Fail('C13', '%s failed and left the live object %s out of the primary key index' % (desc, self.safe_ident(o)))
+        for i, o in enumerate(queue):
+            if o is not None and getattr(o, '_save_pos_', i) != i:
+                raise Fail('C13', '%s failed and left the pending-write queue inconsistent at position %d' % (desc, i))
+
+    def safe_ident(self, o):
+        try:
+            return self.ident(o)
+        except Exception:
+            return repr(o)
+
+    def pending_collection_state(self):
+        """internal secondary diagnostic: pending added/removed sets of the collections the session holds"""
+        out = {}
+        for h, o in sorted(self.pobj.items()):
+            if h not in self.model.cur.objs:
+                continue
+            try:
+                vals = o._vals_
+            except Exception:
+                return None
+            ent = self.model.cur.objs[h]['ent']
+            for end, rev in self.model.rel_ends_of(ent):
+                if not end['many']:
+                    continue
+                try:
+                    sd = vals.get(getattr(type(o), end['attr']))
+                except Exception:
+                    return None
+                if sd is None:
+                    continue
+                try:
+                    out[(h, end['attr'])] = (sorted(self.safe_ident(x) for x in (sd.added or ())),
+                                             sorted(self.safe_ident(x) for x in (sd.removed or ())))
+                except Exception:
+                    return None
+        return out
 
     def probe_keys(self, desc, probes):
         """key lookups after a failed call (part of C13's 'as if the call had not been made'): the keys the failed call
@@ -1026,9 +1130,9 @@ class Harness(object):
                 for end, rev in self.model.rel_ends_of(ent):
                     if end['many']:
                         if b % 2:
-                            exp = sorted(self.pk_of(x) for x in self.model.partners(st, h, end))
-                            got = sorted(d.get(end['attr']))
-                            if None not in exp and got != exp:
+                            exp = [self.pk_of(x) for x in self.model.partners(st, h, end)]
+                            got = d.get(end['attr'])
+                            if None not in exp and None not in got and sorted(got) != sorted(exp):
                                 raise Fail('C10', 'h%d.to_dict()[%r] = %r, session state is %r' % (h, end['attr'], got, exp))
                     else:
                         p = self.model.partner(st, h, end)
@@ -1539,10 +1643,14 @@ class Harness(object):
                     self.guard_read(lambda: self.check_identity((list(op) + [0])[1] % 4))
             else:
                 raise ValueError('unknown op %r' % (op,))
+            if self.doomed:
+                return      # a deferred key conflict: two session objects share a key now, reads are not comparable
             if probing and self.in_session:
                 self.guard_read(lambda: self.probe_reads(op, 'after'))
             if name in ('create', 'set', 'setm', 'cadd', 'crem', 'cclear', 'del', 'retake', 'rekey') and self.in_session:
-                if 'C12' in self.props:
+                # these reads may auto-flush: for C13 they run only at snapshot depth 2, so that most C13 programs keep
+                # their changes pending when a call fails
+                if 'C12' in self.primary or ('C12' in self.props and self.program.get('snap', 0) >= 2):
                     self.guard_read(lambda: self.check_relationship_ends('after %r' % (op,)))
                     self.guard_read(lambda: self.check_against_model('after %r' % (op,)))
                 if 'C10' in self.props and self.program.get('snap', 0) >= 2:
